@@ -57,7 +57,7 @@ pub const OP_NAMES: [&str; 12] = [
     "reserve(n) on BytesMut half (+fill spare)", "try_reclaim(n) on BytesMut half (+fill spare)", "truncate(1)", "unsplit(halves)/freeze",
 ];
 pub const HANDLE_NAMES: [&str; 5] = ["own clone", "&Bytes to main's handle", "BytesMut tail half", "frozen tail half", "the base handle itself (moved)"];
-pub const REPR_NAMES: [&str; 5] = ["promotable (Box<[u8]>-backed, unshared)", "bytes.rs SHARED (Vec with spare)", "bytes_mut.rs SHARED (frozen head of a split BytesMut)", "owner", "static"];
+pub const REPR_NAMES: [&str; 7] = ["promotable (Box<[u8]>-backed, unshared)", "bytes.rs SHARED (Vec with spare)", "bytes_mut.rs SHARED (frozen head of a split BytesMut)", "owner", "static", "promotable, unshared, view advanced by 3", "frozen advanced BytesMut (promotable with a front offset)"];
 
 #[derive(Clone, Debug, PartialEq, Eq, Hash)]
 pub struct Program {
@@ -84,7 +84,7 @@ impl Program {
         })
     }
     pub fn describe(&self) -> String {
-        let mut s = format!("storage: {}{}; ", REPR_NAMES[self.repr as usize % 5], if self.odd { " at an odd address" } else { "" });
+        let mut s = format!("storage: {}{}; ", REPR_NAMES[self.repr as usize % 7], if self.odd { " at an odd address" } else { "" });
         for (i, (h, ops)) in self.threads.iter().enumerate() {
             s += &format!("T{} holds {} and does [{}]; ", i + 1, HANDLE_NAMES[*h as usize % 5], ops.iter().map(|o| OP_NAMES[*o as usize % 12]).collect::<Vec<_>>().join(", "));
         }
@@ -370,7 +370,7 @@ pub fn execute(p: &Program, schedule: Vec<u8>, max_preempt: u32, trace: bool) ->
     let owner_drops = Arc::new(AtomicUsize::new(0));
     let mut tail: Option<BytesMut> = None;
     // ---- setup (main thread, tid 0)
-    let (base, base_expect): (Bytes, Vec<u8>) = match p.repr % 5 {
+    let (base, base_expect): (Bytes, Vec<u8>) = match p.repr % 7 {
         0 => (rt::bracket(|| Bytes::from(expect.clone().into_boxed_slice())), expect.clone()),
         1 => (
             rt::bracket(|| {
@@ -393,6 +393,22 @@ pub fn execute(p: &Program, schedule: Vec<u8>, max_preempt: u32, trace: bool) ->
             let d = owner_drops.clone();
             (rt::bracket(|| Bytes::from_owner(TrackedOwner { buf: expect.clone(), drops: d })), expect.clone())
         }
+        5 => (
+            rt::bracket(|| {
+                let mut b = Bytes::from(expect.clone().into_boxed_slice());
+                bytes::Buf::advance(&mut b, 3);
+                b
+            }),
+            expect[3..].to_vec(),
+        ),
+        6 => (
+            rt::bracket(|| {
+                let mut m = BytesMut::from(&expect[..]);
+                bytes::Buf::advance(&mut m, 5);
+                m.freeze()
+            }),
+            expect[5..].to_vec(),
+        ),
         _ => (Bytes::from_static(&STATIC_DATA), expect.clone()),
     };
     let base_ptr = base.as_ptr() as usize;
@@ -486,7 +502,7 @@ pub fn execute(p: &Program, schedule: Vec<u8>, max_preempt: u32, trace: bool) ->
     }
     let report = rt::end();
     unsafe { free_quarantined(&report.quarantined) };
-    let od = if p.repr % 5 == 3 { Some(owner_drops.load(Ordering::SeqCst)) } else { None };
+    let od = if p.repr % 7 == 3 { Some(owner_drops.load(Ordering::SeqCst)) } else { None };
     ExecOut { report, owner_drops: od }
 }
 
